@@ -506,6 +506,29 @@ class Inliner:
                 continue
             # expression-position calls to single-expression helpers
             self._expr_calls(st, fn, fq, cls)
+            # a call to a multi-statement helper that is evaluated first inside a simple statement is hoisted:
+            #   return f(helper(x))   →   <helper body, result in t>; return f(t)
+            if isinstance(st, (ast.Return, ast.Assign, ast.AnnAssign, ast.Expr)) and getattr(st, "value", None) is not None:
+                hc = self._first_evaluated_helper_call(st.value, fn, fq, cls)
+                if hc is not None:
+                    call, (callee, cfq, recv) = hc
+                    self._k += 1
+                    tmp = "_ret__h%d" % self._k
+                    try:
+                        pre = self._expand(callee, call, recv, fn, ("assign", ast.Name(id=tmp, ctx=ast.Store())))
+                    except NotInlinable:
+                        pre = None
+                    if pre is not None:
+                        class R(ast.NodeTransformer):
+                            def visit_Call(self_, c):
+                                if c is call:
+                                    return ast.copy_location(ast.Name(id=tmp, ctx=ast.Load()), c)
+                                return self_.generic_visit(c)
+                        st.value = R().visit(st.value)
+                        self.inlined.add(cfq)
+                        self.count += 1
+                        stmts[i:i] = pre
+                        i += len(pre)
             for field in ("body", "orelse", "finalbody"):
                 blk = getattr(st, field, None)
                 if isinstance(blk, list) and blk and isinstance(blk[0], ast.stmt) and not isinstance(st, (ast.FunctionDef, ast.ClassDef)):
@@ -513,6 +536,52 @@ class Inliner:
             for h in getattr(st, "handlers", []) or []:
                 self._block(h.body, fn, fq, cls)
             i += 1
+
+    def _first_evaluated_helper_call(self, e: ast.expr, fn, fq, cls):
+        """The call to an inlinable unknown helper that is evaluated before anything with an effect in `e`
+        (left-to-right evaluation; only unconditional positions are visited)."""
+        found = [None]
+        blocked = [False]
+
+        def pure(x) -> bool:
+            return isinstance(x, (ast.Name, ast.Constant)) or (isinstance(x, ast.Attribute) and pure(x.value))
+
+        def visit(x):
+            if found[0] is not None or blocked[0]:
+                return
+            if pure(x):
+                return
+            if isinstance(x, ast.Call):
+                visit(x.func)
+                for a in x.args:
+                    visit(a.value if isinstance(a, ast.Starred) else a)
+                for k in x.keywords:
+                    visit(k.value)
+                if found[0] is not None or blocked[0]:
+                    return
+                hit = self._callee(x, cls, fn, fq)
+                if hit is not None and hit[0] is not fn and self._inlinable(hit[0]) and self._single_expr(hit[0]) is None:
+                    found[0] = (x, hit)
+                else:
+                    blocked[0] = True   # some other call runs first: do not reorder effects
+                return
+            if isinstance(x, (ast.Attribute,)):
+                visit(x.value)
+            elif isinstance(x, ast.Subscript):
+                visit(x.value)
+                visit(x.slice)
+            elif isinstance(x, ast.BinOp):
+                visit(x.left)
+                visit(x.right)
+            elif isinstance(x, ast.UnaryOp):
+                visit(x.operand)
+            elif isinstance(x, (ast.Tuple, ast.List)):
+                for el in x.elts:
+                    visit(el)
+            else:
+                blocked[0] = True    # conditional / lazy / comprehension positions: leave alone
+        visit(e)
+        return found[0]
 
     def _expr_calls(self, st: ast.stmt, fn, fq, cls):
         inl = self
@@ -595,9 +664,91 @@ def collect_foreign(trees: Dict[str, ast.Module], known: Optional[Set[str]]) -> 
     return {n: v[0] for n, v in cand.items() if len(v) == 1 and n not in known_simple and not n.startswith("__") and n not in _LIBRARY_ATTRS}
 
 
+KNOWN_GLOBALS_FILE = pathlib.Path(__file__).with_name("known_globals.txt")
+_known_globals: Optional[Set[str]] = None
+
+
+def load_known_globals() -> Optional[Set[str]]:
+    global _known_globals
+    if _known_globals is None and KNOWN_GLOBALS_FILE.exists():
+        _known_globals = {l.strip() for l in KNOWN_GLOBALS_FILE.read_text().splitlines() if l.strip() and not l.startswith("#")}
+    return _known_globals
+
+
+def _literal(e: ast.expr) -> bool:
+    if isinstance(e, ast.Constant):
+        return True
+    if isinstance(e, (ast.Tuple, ast.List, ast.Set)):
+        return all(_literal(x) or _dotted(x) for x in e.elts)
+    return False
+
+
+def _dotted(e: ast.expr) -> bool:
+    return isinstance(e, ast.Name) or (isinstance(e, ast.Attribute) and _dotted(e.value))
+
+
+def fold_new_constants(module_name: str, tree: ast.Module) -> int:
+    """"Introduce a named constant": a module-level `NAME = <literal>` that the reference tree does not have is
+    substituted into its uses inside the module (where no local shadows it)."""
+    kg = load_known_globals()
+    if kg is None:
+        return 0
+    consts: Dict[str, ast.expr] = {}
+    counts: Dict[str, int] = {}
+    for st in tree.body:
+        tg, val = None, None
+        if isinstance(st, ast.Assign) and len(st.targets) == 1 and isinstance(st.targets[0], ast.Name):
+            tg, val = st.targets[0].id, st.value
+        elif isinstance(st, ast.AnnAssign) and isinstance(st.target, ast.Name) and st.value is not None:
+            tg, val = st.target.id, st.value
+        if tg is not None:
+            counts[tg] = counts.get(tg, 0) + 1
+            if "%s.%s" % (module_name, tg) not in kg and _literal(val):
+                consts[tg] = val
+    consts = {k: v for k, v in consts.items() if counts.get(k) == 1}
+    if not consts:
+        return 0
+    n_sub = 0
+
+    class T(ast.NodeTransformer):
+        def __init__(self, shadow):
+            self.shadow = shadow
+
+        def visit_Name(self, n):
+            nonlocal n_sub
+            if isinstance(n.ctx, ast.Load) and n.id in consts and n.id not in self.shadow:
+                n_sub += 1
+                return ast.copy_location(copy.deepcopy(consts[n.id]), n)
+            return n
+
+        def _scope(self, fn):
+            loc = _assigned(fn) | {a.arg for a in fn.args.posonlyargs + fn.args.args + fn.args.kwonlyargs}
+            if any(isinstance(x, ast.Global) for x in _walk_no_defs(fn)):
+                return fn
+            inner = T(self.shadow | loc)
+            fn.body = [inner.visit(b) for b in fn.body]
+            return fn
+
+        def visit_FunctionDef(self, fn):
+            return self._scope(fn)
+
+        def visit_AsyncFunctionDef(self, fn):
+            return self._scope(fn)
+    new_body = []
+    for st in tree.body:
+        if isinstance(st, (ast.Assign, ast.AnnAssign)) and any(isinstance(x, ast.Name) and x.id in consts and isinstance(x.ctx, ast.Store) for x in ast.walk(st)):
+            new_body.append(st)
+            continue
+        new_body.append(T(set()).visit(st))
+    tree.body = new_body
+    return n_sub
+
+
 def preprocess(module_name: str, tree: ast.Module, known: Optional[Set[str]], foreign: Optional[Dict[str, tuple]] = None) -> Tuple[Set[str], int]:
     if known is None:
         return set(), 0
+    if fold_new_constants(module_name, tree):
+        ast.fix_missing_locations(tree)
     inl = Inliner(module_name, tree, known, foreign)
     inl.run()
     if inl.count:
